@@ -28,6 +28,10 @@ MODELS = [
      "module": "MC_System", "cfg": "MC_System_quick.cfg", "props": ["C17"], "tiers": ["quick"], "workers": 8, "timeout": 900},
     {"name": "MC_System (two overlapping ticks)",
      "module": "MC_System", "cfg": "MC_System_thorough.cfg", "props": ["C17"], "tiers": ["thorough"], "workers": 12, "timeout": 6000, "heap": "16g"},
+    {"name": "TLAPS WatchdogProofs (unbounded: no action without canister height or quorum, target = median, enabled iff in band)",
+     "kind": "tlaps", "module": "WatchdogProofs", "props": ["C17"], "tiers": ["quick", "thorough"], "timeout": 900},
+    {"name": "TLAPS FeesProofs (unbounded: charged <= required for every sane fee table, request-level errors charge the base / flat fee, a call that carried enough is never charged more than it carried)",
+     "kind": "tlaps", "module": "FeesProofs", "props": ["C16"], "tiers": ["quick", "thorough"], "timeout": 900},
     {"name": "MC_Watchdog (4 providers, quorum 2, band +-2, grid of 6 results, all rounds from all states)",
      "module": "MC_Watchdog", "cfg": "MC_Watchdog.cfg", "props": ["C17"], "tiers": ["quick", "thorough"], "workers": 8, "timeout": 600},
     {"name": "MC_Tree (<= 4 blocks, diffs {1,2}, thr {1,2}, mainnet + regtest with depth bound 2)",
@@ -39,7 +43,27 @@ MODELS = [
 ]
 
 
+def run_proofs(m, wd):
+    """TLAPS: every obligation of the module must be proved (unbounded statements about operators that the
+    trace / decision specifications use)."""
+    import subprocess
+    import time
+    d = os.path.join(runner.SPEC, "proofs")
+    t0 = time.time()
+    p = subprocess.run(["timeout", str(m.get("timeout", 900)), "tlapm", "--threads", "6", "--cleanfp", m["module"] + ".tla"],
+                       cwd=d, stdout=subprocess.PIPE, stderr=subprocess.STDOUT, text=True)
+    out = p.stdout
+    mm = re.search(r"All (\d+) obligations? proved", out)
+    ok = mm is not None and "[ERROR]" not in out
+    n = int(mm.group(1)) if mm else 0
+    st = {"name": m["name"], "generated": n, "distinct": n, "depth": 0, "obligations_proved": n, "wall_s": round(time.time() - t0, 1)}
+    why = "" if ok else ("timeout" if p.returncode == 124 else "TLAPS left obligations unproved")
+    return {"ok": ok, "why": why, "summary": st, "tail": out[-3000:], "raw": out}
+
+
 def run_model(m, wd):
+    if m.get("kind") == "tlaps":
+        return run_proofs(m, wd)
     rc, out, wall = runner.run_tlc(m["module"], m["cfg"], wd, workers=m.get("workers", 8),
                                   timeout=m.get("timeout", 900), extra=["-coverage", "1"] if m.get("coverage") else None,
                                   heap=m.get("heap", "8g"))
